@@ -187,6 +187,7 @@ OpenMayFail(tree, ps3) ==
   \/ \E n \in SeqSet(tree) : RecordLenFor(n.name.bytes) > 255 \/ RecordLenFor(2 * n.name.utf16units) > 255
   \/ \E n \in SeqSet(tree) : n.kind = "dangling"
   \/ ps3 /\ ~\E n \in SeqSet(tree) : n.path = <<"PS3_GAME", "PARAM.SFO">> /\ n.kind = "file"
+  \/ Cardinality({ n \in SeqSet(tree) : n.kind = "dir" }) + 1 > 65535      \* directory numbers are 16-bit
 
 (* --------------------------------------------------------------- C07 *)
 TreeNode(tree, p) == CHOOSE n \in SeqSet(tree) : n.path = p
